@@ -112,14 +112,14 @@ PLANS = {
                      "compiles is executed and its events are judged like any other; "
                      "a coverage cell is (type pair, class(source), fits/over+/over- [+lost bits]); non-trivial = source != 0",
                 need_ops=["fi:i8", "fi:u128", "fb", "ff", "fx:from", "fx:lossy", "fxf", "zf", "zb", "zi:i8", "zi:u128"], nlay={"quick": 106 + 599 + 389, "thorough": 506 + 3900 + 389}),
-    "C05": dict(exhaustive={"thorough": True}, module="fltm", streams=[ST_FLT], profiles=["release", "checked"],
+    "C05": dict(exhaustive={"thorough": True}, module="fltm", streams=[ST_FLT, ST_FROMTO], profiles=["release", "checked"],
                 rule="one event = one (layout, fixed value, float bit pattern) with from_num and its four overflow forms, to_num::<f32|f64> "
-                     "and its forms, LossyFrom; floats are exact grid points, exact ties between grid points and the adjacent floats, range "
+                     "and its forms, LossyFrom, the az cast traits, and From<F> for f32/f64 on the generated lossless pairs (fromto driver); floats are exact grid points, exact ties between grid points and the adjacent floats, range "
                      "ends +- half an ulp, +-0, smallest/largest subnormals, MIN_POSITIVE, the top binade up to MAX, +-inf, quiet/signalling "
                      "NaNs, and exponents spread around the layout's range; fixed values have tails 100..0 / 011..1 / 100..01 beyond the "
                      "24th/53rd significant bit; a coverage cell is (layout, float width, float class, fits/over/tie/exact, class of the "
                      "float result, rounded/exact); non-trivial = neither side zero",
-                need_ops=["fl32", "fl64", "zl32", "zl64"]),
+                need_ops=["fl32", "fl64", "zl32", "zl64", "fxf32", "fxf64"]),
     "C08": dict(exhaustive={"thorough": True}, module="parsem", streams=[ST_PARSE], profiles=["release", "checked"],
                 rule="one event = one (layout, radix, literal) parsed by from_str* and its saturating_/wrapping_/overflowing_ forms; literals "
                      "are written by gen/c08.py from EXACT radix expansions of grid points, rounding ties (2R+1)/2^(f+1), quarter points and "
